@@ -44,6 +44,8 @@ def _side_leaf(DF, vals):
 
 
 def run(db, chk) -> None:
+    from .c12 import check_trim
+    check_trim(db, chk, "C02.R6-links-survive-trimming")     # links are written at parse time; the only later row removal keeps launch/activity pairs together
     m = db.mod(TM)
     rule = "C02"
     ref = f"{TM}:transform_correlation_to_index"
